@@ -165,7 +165,10 @@ def instance(rule: str, src: str, pfx: str, nodes: list, inits: list):
     raise KeyError(rule)
 
 
-def hosts(rule: str):
+N_RANDOM = {"quick": 6, "thorough": 150}
+
+
+def hosts(rule: str, tier: str = "quick"):
     """-> list of (tag, ModelProto, spec, expected_min_applications)"""
     out = []
     shape = [2, 2]
@@ -277,6 +280,48 @@ def hosts(rule: str):
         om, _ = instance(rule, "x", "m0", mnodes, minits)
         mnodes.append(oh.make_node("Fn", [om], ["y"], domain="local"))
         finish("instance in the main graph and in a model-local function", mnodes, minits, ["y"], 2, functions=[fn], extra=[("local", 1)])
+    # random hosts: instances of the pattern scattered through a random DAG (any value may feed an instance, an ordinary node, both,
+    # or be a graph output; instances may feed each other).  No minimum application count is claimed for them.
+    import random as _random
+    for ri in range(N_RANDOM.get(tier, 0)):
+        r_ = _random.Random(f"{rule}:{common.seed()}:{ri}")
+        nodes, inits, pool = [], [], ["x"]
+        n_inst = 0
+        for j in range(r_.randint(3, 8)):
+            src = r_.choice(pool)
+            c_ = r_.random()
+            if c_ < 0.45:
+                o_, mids_ = instance(rule, src, f"r{ri}_{j}", nodes, inits)
+                n_inst += 1
+                pool.append(o_)
+                if mids_ and r_.random() < 0.25:
+                    nodes.append(oh.make_node("Abs", [mids_[0]], [f"r{ri}_{j}_x"]))   # an intermediate with a consumer outside the match
+                    pool.append(f"r{ri}_{j}_x")
+            elif c_ < 0.7:
+                nodes.append(oh.make_node(r_.choice(["Abs", "Neg", "Relu", "Identity"]), [src], [f"r{ri}_{j}_u"]))
+                pool.append(f"r{ri}_{j}_u")
+            else:
+                nodes.append(oh.make_node(r_.choice(["Add", "Mul", "Sub"]), [src, r_.choice(pool)], [f"r{ri}_{j}_b"]))
+                pool.append(f"r{ri}_{j}_b")
+        # every value nobody consumes is a graph output (no dead nodes: the clean-up pass would remove them on one side only)
+        consumed_ = {i for nd in nodes for i in nd.input}
+        outs_ = [o for nd in nodes for o in nd.output if o not in consumed_]
+        extra_out = r_.choice(pool)
+        if extra_out != "x" and extra_out not in outs_ and r_.random() < 0.5:
+            outs_.append(extra_out)
+        if outs_:
+            finish(f"random host {ri} ({n_inst} instances, {len(nodes)} nodes)", nodes, inits, outs_, 0)
+    # one host value bound to two (three) pattern variables: the extracted function and its call must agree on the inputs
+    if rule == "mul_add_as_function":
+        for tag_, (a_, b_, c_) in (("x, x, y", ("x", "x", "aux")), ("x, y, x", ("x", "aux", "x")), ("x, x, x", ("x", "x", "x")),
+                                  ("t, t, x with t = Relu(x)", ("t", "t", "x"))):
+            nodes, inits = [], []
+            if "t" in (a_, b_, c_):
+                nodes.append(oh.make_node("Relu", ["x"], ["t"]))
+            nodes.append(oh.make_node("Add", [a_, b_], ["sv_a"]))
+            nodes.append(oh.make_node("Mul", ["sv_a", c_], ["sv_m"]))
+            nodes.append(oh.make_node("Abs", ["sv_m"], ["z"]))
+            finish(f"one value bound to several pattern inputs ({tag_})", nodes, inits, ["z"], 1)
     # initializer name clash (replacement creates an initializer named 'three')
     if rule == "add_const_reassoc":
         nodes, inits = [], [nh.from_array(np.array(7.0, dtype=np.float32), "three")]
@@ -354,7 +399,7 @@ def main(tier: str, only=None) -> int:
     for rn in RULES:
         if only and only not in rn:
             continue
-        for tag, m, spec, expect in hosts(rn):
+        for tag, m, spec, expect in hosts(rn, tier):
             payloads.append((rn, tag, m.SerializeToString(), spec, expect))
     with cf.ProcessPoolExecutor(max_workers=common.jobs()) as ex:
         results = list(ex.map(_worker, payloads, chunksize=4))
